@@ -526,7 +526,7 @@ package plush
 //@ ensures nilnothing: err == nil && itv == nil ==> calls(evalBlockStatement) == 0 && result == nil
 // C16: inside a function body the first return reached in the loop ends the loop: the loop's value is a
 // return object (handed up to end the function) and no further iteration is evaluated
-//@ ensures fnreturn: err == nil && c.fnDepth > 0 && calls(evalBlockStatement) > 0 && is(lastres, "returnObject") ==> is(result, "returnObject")
+//@ ensures fnreturn: err == nil && c.fnDepth > 0 && calls(evalBlockStatement) == prev(calls(evalBlockStatement)) + 1 && is(lastres, "returnObject") ==> is(result, "returnObject")
 //@ loop 1: invariant cctx(c) && octx == unbox(old(c.ctx), "*Context")
 //@ loop 2: invariant cctx(c) && octx == unbox(old(c.ctx), "*Context") && 0 <= i && rvKind(riter) == 21 && rvCanIface(riter)
 //@ loop 2: invariant keysok: forall j int :: 0 <= j && j < len(keys) ==> rvValid(keys[j]) && rvCanIface(keys[j]) && rvType(keys[j]) == tkey(rvType(riter))
